@@ -2,6 +2,7 @@
 //! `Unimock` instances and returns the recorded history.
 
 use std::panic::{catch_unwind, resume_unwind, AssertUnwindSafe};
+#[cfg(feature = "stdworld")]
 use std::process::Termination;
 use std::sync::atomic::{AtomicU64, Ordering};
 use std::sync::{Arc, Mutex};
@@ -273,6 +274,7 @@ fn exec_op(
                             Ok(()) => OpResult::Quiet,
                             Err(p) => panic_text(p.as_ref()),
                         },
+                        #[cfg(feature = "stdworld")]
                         Op::Report { .. } => {
                             match catch_unwind(AssertUnwindSafe(move || Termination::report(u))) {
                                 Ok(code) => OpResult::ExitCode(
@@ -282,6 +284,12 @@ fn exec_op(
                                 Err(p) => panic_text(p.as_ref()),
                             }
                         }
+                        // without `std` unimock has no Termination impl: report() is verify()
+                        #[cfg(not(feature = "stdworld"))]
+                        Op::Report { .. } => match catch_unwind(AssertUnwindSafe(move || u.verify())) {
+                            Ok(()) => OpResult::ExitCode(true),
+                            Err(_) => OpResult::ExitCode(false),
+                        },
                         Op::NoVerifyInDrop { .. } => {
                             match catch_unwind(AssertUnwindSafe(move || u.no_verify_in_drop())) {
                                 Ok(u) => {
